@@ -3,6 +3,7 @@ package core
 import (
 	"fmt"
 	"math"
+	"runtime"
 	"sort"
 )
 
@@ -40,7 +41,36 @@ type Case struct {
 	obs        map[string]float64
 	sets       map[string][]string
 	history    string
+	procs      int
 }
+
+// hostileProcs are scheduler widths under which results must not change: one, non-powers of two, more than the
+// machine has, and more than 256. A library that splits work by GOMAXPROCS or NumCPU sees remainders with these.
+var hostileProcs = []int{1, 2, 3, 5, 6, 7, 12, 24, 48, 61, 300, 512}
+
+// Procs puts the rest of the case under a hostile GOMAXPROCS (drawn from the case's PRNG, so a replay repeats it); the
+// worker restores the default after the case. Monitors call it when they generate a shape that a library might
+// process in parallel (long lists, large expansions).
+func (c *Case) Procs() {
+	if c.procs != 0 {
+		return
+	}
+	c.setProcs(hostileProcs[c.R.Intn(len(hostileProcs))])
+}
+
+func (c *Case) setProcs(n int) {
+	c.procs = n
+	runtime.GOMAXPROCS(n)
+	c.Tag("hostile-GOMAXPROCS")
+}
+
+func (c *Case) restoreProcs() {
+	if c.procs != 0 {
+		runtime.GOMAXPROCS(defaultProcs)
+	}
+}
+
+var defaultProcs = runtime.GOMAXPROCS(0)
 
 // Call counts one library call (for the evidence).
 func (c *Case) Call() { c.calls++ }
